@@ -2,7 +2,7 @@
 (W1 W2 W3 W5 W6 O1 P1 P2 N0)."""
 import ast
 
-from ..model import (AnalysisError, FunctionInfo, ClassInfo, dotted, norm_text,
+from ..model import (AnalysisError, FunctionInfo, ClassInfo, conditional_def, dotted, norm_text,
                      names_read, call_args, const_value, is_none)
 from ..cfg import structural_guards
 from ..rules import wiring
@@ -452,18 +452,28 @@ def _final_range_expr(expr):
           and _enum_literal(expr.orelse) == 'MODEL_OUTPUT')
 
 
-def _range_arg(fn, call, pname='layer_output_range'):
-  kw = {k.arg: k.value for k in call.keywords}
-  v = kw.get(pname)
-  if v is None:
-    return None
+def _local_value(fn, call, v):
+  """the expression a local name holds at `call` (single definition, or the
+  two arms of `x = A if c else B` in its normal form)"""
   if isinstance(v, ast.Name):
     ctx = FnCtx.of(fn)
     at = ctx.cfg.node_containing(call)
     defs = ctx.rd.def_exprs(at, v.id)
     if len(defs) == 1 and defs[0][1] is not None:
       return defs[0][1]
+    cd = conditional_def(fn.node, v.id)
+    if len(defs) == 2 and cd is not None and {id(d[1]) for d in defs} == {
+        id(cd[1]), id(cd[2])}:
+      return ast.IfExp(test=cd[0], body=cd[1], orelse=cd[2])
   return v
+
+
+def _range_arg(fn, call, pname='layer_output_range'):
+  kw = {k.arg: k.value for k in call.keywords}
+  v = kw.get(pname)
+  if v is None:
+    return None
+  return _local_value(fn, call, v)
 
 
 def _w5(prog, res):
@@ -516,10 +526,7 @@ def _w5(prog, res):
   orf = prog.function(PL + '._output_range')
   for c in wiring.calls_to(prog, fn, orf):
     v = c.args[0] if c.args else None
-    if isinstance(v, ast.Name):
-      ctx = FnCtx.of(fn)
-      defs = ctx.rd.def_exprs(ctx.cfg.node_containing(c), v.id)
-      v = defs[0][1] if len(defs) == 1 else v
+    v = _local_value(fn, c, v)
     res.check(v is not None and _final_range_expr(v), 'W5',
               '%s|rtl-final-range' % fn.qualname, fn.loc(c),
               'RTL output range = INPUT_TO_FINAL_CALIBRATION if '
